@@ -13,6 +13,8 @@ import TgModel.Lemmas.IdeSemRun
 import TgModel.Lemmas.IdeSemDiag
 import TgModel.Lemmas.IdeSemDiagCore
 import TgModel.Lemmas.IdeSemCore
+import TgModel.Lemmas.IdeSemCoreP
+import TgModel.Lemmas.IdeSemCoreT
 import TgModel.Props.C03
 
 namespace Tg.C13
@@ -765,7 +767,8 @@ conclusion says what the function itself adds after them (`if cast then c4 else 
 | V3  InnerValue field suffix `x.f` (836)                  | cannot access field: ‹n›                    | `innerValue_suffixes` (+ `suffixStep`) |
 | V1  SimpleValue::Identifier (897)                        | symbol not found: ‹n›                       | `identifier_lookup` (= `Tg.C05.identifier_not_found` / `identifier_found`) |
 | V2  SimpleValue::ClassValue (920)                        | class not found: ‹n›                        | `classValue_lookup` |
-| T1  Type::ClassId (992)                                  | class not found: ‹n›                        | `type_class_lookup` |
+| LL  SimpleValue::List, the fold over the element types (at the range of the whole literal) | list elements of type '‹a›' and '‹b›' are incompatible | `list_literal`, `list_literal_annotated`, `list_literal_unresolved` (`listFold`, `listStep_reported`) |
+| T1  Type::ClassId (992; also the annotation of a list literal: `[]<Undefined>`) | class not found: ‹n›                        | `type_class_lookup` |
 | B0  bang operators, arity (`expect_values`, 3 sites, used by every operator) | expected ‹n› arguments, found ‹m› … | section (3): `expectValues_contract` |
 | B1  `expect_type_annotation`                             | expected type annotation                    | `expectTypeAnnotation_contract` |
 | B2  `unexpect_type_annotation`                           | unexpected type annotation                  | `unexpectTypeAnnotation_contract` |
@@ -1889,6 +1892,195 @@ theorem innerValue_suffixes (r : Rec) (n : PTree) (sv : PTree) (hsv : Ast.innerV
     rw [h2]
 
 
+/-! list literals: the one type of the elements -/
+
+/-- one step of the fold over the element types of a list literal: the running element type afterwards,
+and whether the element is reported -/
+def listStep (sm : SymMap) (annotated : Bool) (cur typ : Ty) : Ty × Bool :=
+  if sm.canBeCastedTo typ cur then (cur, false)
+  else if !annotated && sm.canBeCastedTo cur typ then (typ, false)
+  else
+    match (if annotated then none else sm.commonTyp cur typ) with
+    | some cm => (cm, false)
+    | none => (cur, true)
+
+/-- the fold: the element type in the end, and the clashing pairs (running type, element type) in order -/
+def listFold (sm : SymMap) (annotated : Bool) : Option Ty → List Ty → Option Ty × List (Ty × Ty)
+  | e, [] => (e, [])
+  | none, t :: ts => listFold sm annotated (some t) ts
+  | some cur, t :: ts =>
+    let r := listFold sm annotated (some (listStep sm annotated cur t).1) ts
+    (r.1, if (listStep sm annotated cur t).2 then (cur, t) :: r.2 else r.2)
+
+def listClashMessage (p : Ty × Ty) : String := s!"list elements of type '{p.1}' and '{p.2}' are incompatible"
+
+def reportClashes (c : IndexCtx) (f : Nat) (rg : Nat × Nat) (ps : List (Ty × Ty)) : IndexCtx :=
+  ps.foldl (fun c p => c.report f rg (listClashMessage p)) c
+
+
+theorem reportClashes_fileTrace (c : IndexCtx) (f : Nat) (rg : Nat × Nat) (ps : List (Ty × Ty)) :
+    (reportClashes c f rg ps).fileTrace = c.fileTrace := by
+  unfold reportClashes
+  induction ps generalizing c with
+  | nil => rfl
+  | cons p t ih => simp only [List.foldl_cons]; rw [ih]; rfl
+
+theorem reportClashes_symbolMap (c : IndexCtx) (f : Nat) (rg : Nat × Nat) (ps : List (Ty × Ty)) :
+    (reportClashes c f rg ps).symbolMap = c.symbolMap := by
+  unfold reportClashes
+  induction ps generalizing c with
+  | nil => rfl
+  | cons p t ih => simp only [List.foldl_cons]; rw [ih]; rfl
+
+/-- the reports are appended, all at the same range of the current file -/
+theorem reportClashes_diagnostics (c : IndexCtx) (f : Nat) (rg : Nat × Nat) (ps : List (Ty × Ty)) :
+    (reportClashes c f rg ps).diagnostics =
+      c.diagnostics ++ (ps.map fun p => { location := ⟨f, rg.1, rg.2⟩, message := listClashMessage p }).toArray := by
+  unfold reportClashes
+  induction ps generalizing c with
+  | nil => simp
+  | cons p t ih =>
+    simp only [List.foldl_cons]
+    rw [ih]
+    apply Array.ext'
+    simp [IndexCtx.report]
+
+/-- an element fits the running element type: it can be cast to it, or - in a literal without annotation -
+the running type can be cast to the element's, or the two have a common type -/
+def listFits (sm : SymMap) (annotated : Bool) (cur typ : Ty) : Bool :=
+  sm.canBeCastedTo typ cur || (!annotated && (sm.canBeCastedTo cur typ || (sm.commonTyp cur typ).isSome))
+
+/-- **an element is reported iff it fits in none of the three ways** -/
+theorem listStep_reported (sm : SymMap) (annotated : Bool) (cur typ : Ty) :
+    (listStep sm annotated cur typ).2 = !listFits sm annotated cur typ := by
+  unfold listStep listFits
+  cases sm.canBeCastedTo typ cur <;> cases annotated <;> cases sm.canBeCastedTo cur typ <;>
+    cases sm.commonTyp cur typ <;> rfl
+
+/-- the fold of `indexSimpleValue` over the element types, for any loop body that does what the model's does -/
+theorem listFold_run (f : Nat) (rest : List Nat) (rg : Nat × Nat) (annotated : Bool)
+    (G : Ty → Option Ty → IxM (ForInStep (Option Ty)))
+    (hG0 : ∀ typ c, (G typ none).run c = .ok (.yield (some typ), c))
+    (hG : ∀ typ cur c, c.fileTrace = f :: rest → (G typ (some cur)).run c =
+      .ok (.yield (some (listStep c.symbolMap annotated cur typ).1),
+        if (listStep c.symbolMap annotated cur typ).2 then c.report f rg (listClashMessage (cur, typ)) else c)) :
+    ∀ (tys : List Ty) (e : Option Ty) (c : IndexCtx), c.fileTrace = f :: rest →
+      (forIn tys e G).run c =
+        .ok ((listFold c.symbolMap annotated e tys).1, reportClashes c f rg (listFold c.symbolMap annotated e tys).2) := by
+  intro tys
+  induction tys with
+  | nil => intro e c _; cases e <;> rfl
+  | cons t ts ih =>
+    intro e c hc
+    rw [List.forIn_cons]
+    cases e with
+    | none =>
+      simp only [StateT.run_bind, hG0, Except.ok_bind]
+      rw [ih (some t) c hc]
+      rfl
+    | some cur =>
+      simp only [StateT.run_bind, hG t cur c hc, Except.ok_bind]
+      by_cases hr : (listStep c.symbolMap annotated cur t).2 = true
+      · simp only [hr, if_true]
+        rw [ih _ (c.report f rg (listClashMessage (cur, t))) (by simpa using hc)]
+        simp only [IndexCtx.report_symbolMap, listFold, hr, if_true]
+        rfl
+      · simp only [hr, Bool.false_eq_true, if_false]
+        rw [ih _ c hc]
+        simp only [listFold, hr, Bool.false_eq_true, if_false]
+
+/-- the elements of a list literal are indexed one after the other; the types of those that have one are
+collected -/
+inductive ElemRuns (r : Rec) : List PTree → Array Ty → IndexCtx → Array Ty → IndexCtx → Prop
+  | nil (acc : Array Ty) (c : IndexCtx) : ElemRuns r [] acc c acc c
+  | cons (v : PTree) (vs : List PTree) (acc : Array Ty) (c : IndexCtx) (t : Option Ty) (c1 : IndexCtx)
+      (acc' : Array Ty) (c' : IndexCtx) : (r.value v).run c = .ok (t, c1) →
+      ElemRuns r vs (match t with | some ty => acc.push ty | none => acc) c1 acc' c' →
+      ElemRuns r (v :: vs) acc c acc' c'
+
+theorem elems_run (r : Rec) (B : PTree → Array Ty → IxM (ForInStep (Array Ty)))
+    (hB : ∀ v acc c t c1, (r.value v).run c = .ok (t, c1) →
+      (B v acc).run c = .ok (.yield (match t with | some ty => acc.push ty | none => acc), c1))
+    (vs : List PTree) (acc : Array Ty) (c : IndexCtx) (acc' : Array Ty) (c' : IndexCtx)
+    (h : ElemRuns r vs acc c acc' c') : (forIn vs acc B).run c = .ok (acc', c') := by
+  induction h with
+  | nil => rfl
+  | cons v vs acc c t c1 acc' c' hv _ ih =>
+    rw [List.forIn_cons]
+    simp only [StateT.run_bind, hB v acc c t c1 hv, Except.ok_bind]
+    exact ih
+
+/-- **site L-list `list elements of type '…' and '…' are incompatible`, a literal without annotation**: after
+the elements have been indexed (sub-calls: `ElemRuns`), the arm is exactly the fold `listFold`: the element
+type is the widest of the element types or what they have in common, and every element that fits the
+running type in none of the three ways (`listStep_reported`) is reported, at the range of the whole literal,
+in the current file -/
+theorem list_literal (r : Rec) (n vl : PTree) (hk : n.kind = .List) (hvl : Ast.listValueList n = some vl)
+    (c c1 : IndexCtx) (tys : Array Ty) (helems : ElemRuns r (Ast.valueListValues vl) #[] c tys c1)
+    (hty : Ast.listType n = none) (f : Nat) (rest : List Nat) (hft : c1.fileTrace = f :: rest) :
+    (indexSimpleValue r n).run c =
+      .ok (some (.list ((listFold c1.symbolMap false none tys.toList).1.getD .any)),
+        reportClashes c1 f (nodeRange n) (listFold c1.symbolMap false none tys.toList).2) := by
+  unfold indexSimpleValue
+  simp only [hk, hvl, hty, StateT.run_bind]
+  rw [elems_run r _ ?_ _ _ _ _ _ helems]
+  · simp only [Except.ok_bind]
+    rw [listFold_run f rest (nodeRange n) false _ ?_ ?_ tys.toList none c1 hft]
+    · rfl
+    · intro typ c; rfl
+    · intro typ cur c hc
+      unfold listStep
+      cases sm1 : c.symbolMap.canBeCastedTo typ cur <;> cases sm2 : c.symbolMap.canBeCastedTo cur typ <;>
+        cases hcm : c.symbolMap.commonTyp cur typ <;>
+        simp only [StateT.run_bind, canBeCastedTo_run, sm1, sm2, hcm, withSM_run, Except.ok_bind,
+          error_run _ _ c f rest hc, StateT.run_pure, Bool.false_eq_true, if_false, if_true, Option.isSome_none,
+          Bool.not_false, Bool.true_and, Bool.and_true, Bool.and_false] <;> rfl
+  · intro v acc c t c2 hv
+    simp only [StateT.run_bind, hv, Except.ok_bind]
+    cases t <;> rfl
+
+/-- **site L-list, an annotated literal `[…]<T>`**: the annotation is resolved by `r.typ` (a class that
+does not exist is reported there: site T1, `type_class_lookup`; e.g. `[]<Undefined>`); the elements must be
+castable to `T`, nothing else helps -/
+theorem list_literal_annotated (r : Rec) (n vl tn : PTree) (hk : n.kind = .List) (hvl : Ast.listValueList n = some vl)
+    (c c1 c2 : IndexCtx) (tys : Array Ty) (helems : ElemRuns r (Ast.valueListValues vl) #[] c tys c1)
+    (hty : Ast.listType n = some tn) (t : Ty) (htr : (r.typ tn).run c1 = .ok (some t, c2))
+    (f : Nat) (rest : List Nat) (hft : c2.fileTrace = f :: rest) :
+    (indexSimpleValue r n).run c =
+      .ok (some (.list ((listFold c2.symbolMap true (some t) tys.toList).1.getD .any)),
+        reportClashes c2 f (nodeRange n) (listFold c2.symbolMap true (some t) tys.toList).2) := by
+  unfold indexSimpleValue
+  simp only [hk, hvl, hty, StateT.run_bind]
+  rw [elems_run r _ ?_ _ _ _ _ _ helems]
+  · simp only [Except.ok_bind, htr, StateT.run_bind]
+    rw [listFold_run f rest (nodeRange n) true _ ?_ ?_ tys.toList (some t) c2 hft]
+    · rfl
+    · intro typ c; rfl
+    · intro typ cur c hc
+      unfold listStep
+      cases sm1 : c.symbolMap.canBeCastedTo typ cur <;> cases sm2 : c.symbolMap.canBeCastedTo cur typ <;>
+        simp only [StateT.run_bind, canBeCastedTo_run, sm1, sm2, Except.ok_bind,
+          error_run _ _ c f rest hc, StateT.run_pure, Bool.false_eq_true, if_false, if_true, Option.isSome_some,
+          Bool.not_true, Bool.false_and, pure_bind] <;> rfl
+  · intro v acc c t c2 hv
+    simp only [StateT.run_bind, hv, Except.ok_bind]
+    cases t <;> rfl
+
+/-- an annotation that does not resolve: the literal has no type, and nothing more is reported -/
+theorem list_literal_unresolved (r : Rec) (n vl tn : PTree) (hk : n.kind = .List) (hvl : Ast.listValueList n = some vl)
+    (c c1 c2 : IndexCtx) (tys : Array Ty) (helems : ElemRuns r (Ast.valueListValues vl) #[] c tys c1)
+    (hty : Ast.listType n = some tn) (htr : (r.typ tn).run c1 = .ok (none, c2)) :
+    (indexSimpleValue r n).run c = .ok (none, c2) := by
+  unfold indexSimpleValue
+  simp only [hk, hvl, hty, StateT.run_bind]
+  rw [elems_run r _ ?_ _ _ _ _ _ helems]
+  · simp only [Except.ok_bind, htr]
+    rfl
+  · intro v acc c t c2 hv
+    simp only [StateT.run_bind, hv, Except.ok_bind]
+    cases t <;> rfl
+
+
 /-! bang operators: the helpers through which 35 of the 52 `ctx.error` sites of `bang_operator.rs` go -/
 
 /-- **site B2 `unexpected type annotation`**, both directions -/
@@ -2593,6 +2785,24 @@ example : ∃ res, index incWs = .ok res ∧
 
 
 
+/-- `[1, "s"]` -/
+def listBad : PTree :=
+  .node .List 0 8 5 #[.token .LSquare 0 1 "[",
+    .node .ValueList 1 7 4 #[intValue, .token .Comma 2 3 ",", strValue], .token .RSquare 7 8 "]"]
+/-- `[1, 1]` -/
+def listGood : PTree :=
+  .node .List 0 6 5 #[.token .LSquare 0 1 "[",
+    .node .ValueList 1 5 4 #[intValue, .token .Comma 2 3 ",", intValue], .token .RSquare 5 6 "]"]
+
+/-- site LL: the string fits the running type `int` in none of the three ways; the literal is reported once,
+as a whole, and keeps the running type -/
+example : (indexSimpleValue exR listBad).run c0 =
+    .ok (some (.list .int), c0.report 0 (0, 8) "list elements of type 'int' and 'string' are incompatible") := rfl
+example : (indexSimpleValue exR listGood).run c0 = .ok (some (.list .int), c0) := rfl
+example (sm : SymMap) : listFold sm false none [.int, .string] = (some .int, [(.int, .string)]) ∧
+    listFold sm false none [.int, .int] = (some .int, []) ∧ listFold sm false none [.bit, .int] = (some .bit, []) := ⟨rfl, rfl, rfl⟩
+
+
 /-! ### a fault class that is not reported: top-level `let`
 
 `let f = v in { … }` / `let f = v in def …` (the `Let` statement, as opposed to `let f = v;` inside a
@@ -2622,8 +2832,7 @@ example : (indexLetItem exR (.node .LetItem 0 7 4 #[identX, .token .Equal 2 3 "=
 
 /-! ## (6) soundness on a declaratively specified core -/
 
-/-- **the judgement of (6)**: a statement list is a *core program* if it passes one of the two
-checkers (both are Boolean functions of the tree, so concrete programs are checked by `decide`).
+/-- the judgement of (6) before the class hierarchy was added: one of the first two checkers accepts.
 
 Accepted: a sequence of `class C { … }` and `def d { … }` statements (named or anonymous defs)
 without template parameters and without parent classes, whose bodies consist of field definitions
@@ -2633,21 +2842,67 @@ without template parameters and without parent classes, whose bodies consist of 
   (`coreStatementList`, `Lemmas/IdeSemDiagCore.lean`), or
 * `init` is a single identifier naming a field declared earlier in the same body, or `x` itself, whose
   declared type can be cast to `T` (`coreStatementList2`, `Lemmas/IdeSemCore.lean`; the later of two
-  declarations of a name counts).
+  declarations of a name counts). -/
+def coreProgramB12 (sl : PTree) : Bool := coreStatementList sl || coreStatementList2 sl
 
-Rejected (not covered): template arguments, parent classes, `let`, class values and every other
-value form as initialiser, identifiers naming anything but a field of the same record, `list<…>` and
-class types, `defvar`, `foreach`, `if`, `defset`, `multiclass`/`defm`, bang operators, `include`. -/
-def coreProgramB (sl : PTree) : Bool := coreStatementList sl || coreStatementList2 sl
-
-/-- **(6a)** on a core program the indexer appends no diagnostic, in any context with a current file -/
-theorem core_statements_quiet (k : Nat) (sl : PTree) (hcore : coreProgramB sl = true) (c c' : IndexCtx)
+/-- **(6a)** on a program of the first two checkers the indexer appends no diagnostic, in any context
+with a current file -/
+theorem core_statements_quiet (k : Nat) (sl : PTree) (hcore : coreProgramB12 sl = true) (c c' : IndexCtx)
     (htr : c.fileTrace ≠ [])
     (h : ((mkRec (k + 2)).statementList sl).run c = .ok ((), c')) : c'.diagnostics = c.diagnostics := by
-  unfold coreProgramB at hcore
+  unfold coreProgramB12 at hcore
   rcases Bool.or_eq_true_iff.1 hcore with h1 | h2
   · exact (indexStatementList_quiet k sl h1).run _ _ _ h
   · exact indexStatementList2_quiet k sl h2 c c' htr h
+
+/-- **the judgement of (6)**: a statement list is a *core program* if it passes one of the checkers
+(all are Boolean functions of the tree, so concrete programs are checked by `decide`).
+
+Accepted by `coreProgramB12`: see there (no parents, no `let`).
+
+Accepted by `coreStatementList3` (`Lemmas/IdeSemCoreP.lean`), which is strictly wider on named classes:
+a sequence of `class C [: P1, P2, …] { … }` and `def d [: P1, P2, …] { … }` statements (named or
+anonymous defs; a class needs a name) without template parameters, where
+* every parent `Pi` is written without argument list and names a class declared *earlier in the list*
+  by an accepted statement (the latest declaration of the name counts; a class cannot name itself);
+* the body consists of field definitions `T x;` / `T x = init;` and of `let f = init;` /
+  `let f{ranges} = init;`;
+* `T` is a primitive type: `bit`, `int`, `string`, `code`, `dag`, `bits<n>`;
+* the fields in scope are those of the parents (an earlier parent shadows a later one, as in
+  `Record::find_field`) and those declared earlier in the body, `x` itself included; a field of the
+  body shadows an inherited one;
+* `f` is a field in scope;
+* `init` is a single literal - integer, string, code, boolean, `?` - or a single identifier naming a
+  field in scope, whose type can be cast to the declared type of the field; for a `let` with a range
+  list, to the type of the selected bits (`bit` for one bit, `bits<w>` otherwise).
+
+Accepted by `coreStatementList4` (`Lemmas/IdeSemCoreT.lean`), which is wider again: the same with template
+parameters and positional template arguments,
+* a class may have a parameter list `<T1 p1 [= d1], T2 p2 [= d2], …>`: the `Ti` primitive, the names
+  distinct, every default `di` a literal or the name of `pi` or of an earlier parameter, castable to `Ti`;
+* the identifiers in scope in the parent list and the body of a class are the fields in scope and, behind
+  them, its parameters; `init` (of a field definition or a `let`) may name either;
+* a parent `P<a1, …, an>` (or `P`, `n = 0`) names a class declared earlier with at least `n` parameters:
+  every `ai` is a positional argument - a literal or an identifier in scope (the fields inherited from the
+  parents to its left, and the parameters) - whose type can be cast to the type of the `i`-th parameter,
+  and the parameters after the `n`-th have defaults.
+
+Rejected (not covered): named template arguments, class values and every other value form as initialiser
+or argument, identifiers naming anything but a field or parameter in scope, `list<…>` and class types,
+`defvar`, `foreach`, `if`, `defset`, `multiclass`/`defm`, bang operators, `include`, top-level `let`. -/
+def coreProgramB (sl : PTree) : Bool := coreProgramB12 sl || coreStatementList3 sl || coreStatementList4 sl
+
+/-- **(6a')** on a core program the indexer appends no diagnostic, from a context with a current file
+and an empty symbol map (the third checker follows the class table from its beginning) -/
+theorem core_statements_quiet' (k : Nat) (sl : PTree) (hcore : coreProgramB sl = true) (c c' : IndexCtx)
+    (hsm : c.symbolMap = {}) (htr : c.fileTrace ≠ [])
+    (h : ((mkRec (k + 2)).statementList sl).run c = .ok ((), c')) : c'.diagnostics = c.diagnostics := by
+  unfold coreProgramB at hcore
+  rcases Bool.or_eq_true_iff.1 hcore with h12 | h4
+  · rcases Bool.or_eq_true_iff.1 h12 with h1 | h3
+    · exact core_statements_quiet k sl h1 c c' htr h
+    · exact indexStatementList3_quiet k sl h3 c c' hsm htr h
+  · exact indexStatementList4_quiet k sl h4 c c' hsm htr h
 
 /-- **(6b) `core_no_diagnostics_partial`**: a workspace whose root file is a core program
 (`coreProgramB`, see there for exactly what is accepted) and has no other statements - in particular
@@ -2671,7 +2926,7 @@ theorem core_no_diagnostics_partial (ws : Workspace) (res : IndexResult) (h : in
         rw [hsl]
       rw [this] at hrun
       exact hrun
-    exact core_statements_quiet (j + 1) sl hcore _ _ (by simp [IndexCtx.new]) hrun'
+    exact core_statements_quiet' (j + 1) sl hcore _ _ rfl (by simp [IndexCtx.new]) hrun'
 
 /-- the judgement on the root file of a workspace -/
 def coreWorkspaceB (ws : Workspace) : Bool :=
@@ -2904,38 +3159,117 @@ example (c' : IndexCtx) (hrun : (indexParentClassList exR parentsAA).run cDefm =
 
 
 
-/-- a seven-statement program of the core: literals of every kind, uses of earlier fields (`width`,
-`raw`, `idx`, `label`, `size`, `base`), a `bits<4>` field, an anonymous def -/
+/-- a four-statement program of the second core: literals of several kinds, uses of earlier fields
+(`width`, `raw`, `idx`), a `bits<4>` field, an anonymous def.  (The three programs below are kept short:
+their judgements are evaluated by the kernel through `buildWorkspace`, parser included.) -/
 def coreSource : String :=
   "class Reg { int width = 32; int bytes = width; string name = \"r\"; bit live = ?; }\n" ++
-  "class Flags { bits<4> mask; int raw = 0; int copy = raw; }\n" ++
-  "def r0 { int idx = 0; int next = idx; string label = \"r0\"; }\n" ++
-  "def r1 { int idx = 1; string label = \"r1\"; string alias = label; }\n" ++
-  "class Mem { int size = 1024; int words = size; code init = [{ }]; }\n" ++
-  "def m0 { int base = 0; int top = base; }\n" ++
+  "class Flags { bits<4> mask; int raw = 0; int copy = raw; code init = [{ }]; }\n" ++
+  "def r0 { int idx = 0; int next = idx; }\n" ++
   "def { int anon = 7; }\n"
 
-/-- the program is built by `buildWorkspace`, accepted by the judgement (checked by evaluation), its
-index run succeeds (C03) and - by `core_workspace_no_diagnostics` - reports nothing -/
-example : ∃ ws res, buildWorkspace [("/w/core.td", coreSource)] "/w/core.td" none = .ok ws ∧
-    coreWorkspaceB ws = true ∧ index ws = .ok res ∧ res.diagnostics = #[] := by
-  have hk : (match buildWorkspace [("/w/core.td", coreSource)] "/w/core.td" none with
-      | .ok ws => coreWorkspaceB ws
-      | .error _ => false) = true := by decide +kernel
-  cases hb : buildWorkspace [("/w/core.td", coreSource)] "/w/core.td" none with
+/-- the source is built by `buildWorkspace`, the judgement accepts its root file, and `extra` holds of the
+root statement list (a Boolean, evaluated by the kernel for the three programs) -/
+def checkedSrc (src : String) (extra : PTree → Bool) : Bool :=
+  match buildWorkspace [("/w/core.td", src)] "/w/core.td" none with
+  | .ok ws =>
+    coreWorkspaceB ws &&
+    match (Ast.sourceFileCast (ws.tree ws.root)).bind Ast.sourceFileStatementList with
+    | some sl => extra sl
+    | none => false
+  | .error _ => false
+
+/-- from a checked source to the end-to-end statement: the workspace is built, its index run succeeds
+(C03) and - by `core_workspace_no_diagnostics` - reports nothing -/
+theorem checked_no_diagnostics (src : String) (extra : PTree → Bool) (hk : checkedSrc src extra = true) :
+    ∃ ws res, buildWorkspace [("/w/core.td", src)] "/w/core.td" none = .ok ws ∧
+      coreWorkspaceB ws = true ∧ index ws = .ok res ∧ res.diagnostics = #[] := by
+  unfold checkedSrc at hk
+  cases hb : buildWorkspace [("/w/core.td", src)] "/w/core.td" none with
   | error e => rw [hb] at hk; cases hk
   | ok ws =>
     rw [hb] at hk
+    have hk1 : coreWorkspaceB ws = true := (Bool.and_eq_true_iff.1 hk).1
     obtain ⟨res, hres⟩ := Tg.C03.index_never_panics _ _ _ ws hb
-    exact ⟨ws, res, rfl, hk, hres, core_workspace_no_diagnostics ws res hres hk⟩
+    exact ⟨ws, res, rfl, hk1, hres, core_workspace_no_diagnostics ws res hres hk1⟩
 
-/-- the second checker alone accepts it (the first one does not: it has identifier initialisers) -/
-example : (match buildWorkspace [("/w/core.td", coreSource)] "/w/core.td" none with
-    | .ok ws =>
-      match (Ast.sourceFileCast (ws.tree ws.root)).bind Ast.sourceFileStatementList with
-      | some sl => coreStatementList2 sl && !coreStatementList sl
-      | none => false
-    | .error _ => false) = true := by decide +kernel
+/-- the program is accepted by the judgement - by the second checker, not by the first (it has identifier
+initialisers) -/
+theorem coreSource_checked :
+    checkedSrc coreSource (fun sl => coreStatementList2 sl && !coreStatementList sl) = true := by decide +kernel
+
+example : ∃ ws res, buildWorkspace [("/w/core.td", coreSource)] "/w/core.td" none = .ok ws ∧
+    coreWorkspaceB ws = true ∧ index ws = .ok res ∧ res.diagnostics = #[] :=
+  checked_no_diagnostics _ _ coreSource_checked
+
+/-- a six-statement program in the style of an LLVM target description: a register and an instruction
+hierarchy (parents without arguments, two parents, a three-level chain), `let` on inherited fields with
+and without bit ranges, uses of inherited fields as initialisers -/
+def core3Source : String :=
+  "class Reg { string Namespace = \"\"; bits<16> Enc = 0; int Size = 32; }\n" ++
+  "class GPR : Reg { let Namespace = \"RV\"; int Width = Size; let Enc{15-5} = 0; }\n" ++
+  "class Inst { bits<32> Bits; bit isBranch = 0; }\n" ++
+  "class Sched { int Latency = 1; }\n" ++
+  "def X1 : GPR { let Enc{4-0} = 1; int Alias = Width; }\n" ++
+  "def BEQ : Inst, Sched { let isBranch = 1; let Bits{6-0} = 99; let Latency = 2; int Cost = Latency; }\n"
+
+/-- the program is built by `buildWorkspace` and accepted by the judgement - by the third checker
+only (checked by evaluation) -/
+theorem core3Source_checked :
+    checkedSrc core3Source (fun sl => coreStatementList3 sl && !coreProgramB12 sl) = true := by decide +kernel
+
+/-- its index run succeeds (C03) and - by `core_workspace_no_diagnostics` - reports nothing -/
+example : ∃ ws res, buildWorkspace [("/w/core.td", core3Source)] "/w/core.td" none = .ok ws ∧
+    coreWorkspaceB ws = true ∧ index ws = .ok res ∧ res.diagnostics = #[] :=
+  checked_no_diagnostics _ _ core3Source_checked
+
+/-- the same kind of program with template parameters: defaults, parameters passed on to the parent,
+literal arguments, parameters and inherited fields as initialisers, bit ranges set from a parameter -/
+def core4Source : String :=
+  "class Reg<string n, bits<16> enc = 0> { string AsmName = n; bits<16> Enc = enc; int Size = 32; }\n" ++
+  "class GPR<string n, bits<16> enc> : Reg<n, enc> { let Size = 64; int Width = Size; }\n" ++
+  "class Inst<string asm, bits<7> opc, int sz = 4> { string Asm = asm; bits<32> Bits; let Bits{6-0} = opc; int Size = sz; }\n" ++
+  "class Br<string asm> : Inst<asm, 99> { bit isBranch = 1; }\n" ++
+  "def X0 : GPR<\"x0\", 0>;\n" ++
+  "def BEQ : Br<\"beq\"> { let Size = 4; }\n"
+
+/-- the program is built by `buildWorkspace` and accepted by the judgement - by the fourth checker
+only (checked by evaluation) -/
+theorem core4Source_checked :
+    checkedSrc core4Source (fun sl => coreStatementList4 sl && !coreStatementList3 sl && !coreProgramB12 sl) = true := by
+  decide +kernel
+
+/-- its index run succeeds (C03) and - by `core_workspace_no_diagnostics` - reports nothing -/
+example : ∃ ws res, buildWorkspace [("/w/core.td", core4Source)] "/w/core.td" none = .ok ws ∧
+    coreWorkspaceB ws = true ∧ index ws = .ok res ∧ res.diagnostics = #[] :=
+  checked_no_diagnostics _ _ core4Source_checked
+
+/-- a missing argument without default, an argument of the wrong type, too many arguments and a repeated
+parameter name are rejected by the judgement -/
+example : (match buildWorkspace [("/w/bad.td", "class A<int x> { int v = x; }\ndef d : A { }\n")] "/w/bad.td" none with
+    | .ok ws => coreWorkspaceB ws
+    | .error _ => true) = false := by decide +kernel
+example : (match buildWorkspace [("/w/bad.td", "class A<int x> { int v = x; }\ndef d : A<\"s\"> { }\n")] "/w/bad.td" none with
+    | .ok ws => coreWorkspaceB ws
+    | .error _ => true) = false := by decide +kernel
+example : (match buildWorkspace [("/w/bad.td", "class A<int x = 1> { }\ndef g : A<2, 3>;\n")] "/w/bad.td" none with
+    | .ok ws => coreWorkspaceB ws
+    | .error _ => true) = false := by decide +kernel
+example : (match buildWorkspace [("/w/bad.td", "class A<int x, int x> { }\n")] "/w/bad.td" none with
+    | .ok ws => coreWorkspaceB ws
+    | .error _ => true) = false := by decide +kernel
+
+/-- a parent that is declared later, a `let` on an unknown field and a `let` of the wrong type are
+rejected by the judgement -/
+example : (match buildWorkspace [("/w/bad.td", "class B : A { }\nclass A { int x = 1; }\n")] "/w/bad.td" none with
+    | .ok ws => coreWorkspaceB ws
+    | .error _ => true) = false := by decide +kernel
+example : (match buildWorkspace [("/w/bad.td", "class A { int x = 1; }\ndef d : A { let y = 1; }\n")] "/w/bad.td" none with
+    | .ok ws => coreWorkspaceB ws
+    | .error _ => true) = false := by decide +kernel
+example : (match buildWorkspace [("/w/bad.td", "class A { int x = 1; }\ndef d : A { let x = \"s\"; }\n")] "/w/bad.td" none with
+    | .ok ws => coreWorkspaceB ws
+    | .error _ => true) = false := by decide +kernel
 
 /-- and a type-incompatible use of an earlier field is rejected by the judgement -/
 example : (match buildWorkspace [("/w/bad.td", "class A { string s = \"a\"; int n = s; }\n")] "/w/bad.td" none with
